@@ -309,12 +309,16 @@ func (e *nestEnv) pickContainer(pred func(*node) bool) *node {
 	return c[e.rng.Intn(len(c))]
 }
 
-func nestedStream(cfg *Config) *hx.Stats {
+func nestedStream(cfg *Config) (res *hx.Stats) {
 	st := hx.NewStats("nested", cfg.Seed)
 	rng := rand.New(rand.NewSource(cfg.Seed*15485863 + 29))
 	w := hx.NewW(filepath.Join(cfg.Out, fmt.Sprintf("nested-%d.trace", cfg.Seed)))
 	defer w.Close()
 	st.TraceFiles = append(st.TraceFiles, w.Path)
+	// a panic inside a library call (sweep s4 m02: a child notifies a parent map whose index root was
+	// emptied) is a violation with the history up to that request, not a dead process (recover.go)
+	defer func() { atree.VerifSetThreshold(1024) }()
+	defer recoverAsViolation(st, w, &res)
 	nProg := int(16 * cfg.Scale)
 	seen := map[string]bool{}
 	nestedExotic(st, cfg, w) // scripted, model-free: container keys, oversized wrappers (nestedx.go)
